@@ -310,9 +310,19 @@ func (r *TaskRunner) checkTaskCondition(t *task.Task, executionContext *Executio
 	return true, nil
 }
 
+const (
+	taskOutputVariablePrefix = "Tasks."
+	taskOutputVariableSuffix = ".Output"
+)
+
+// isTaskOutputVariable tells whether the variable holds the output of a finished task
+func isTaskOutputVariable(name string) bool {
+	return strings.HasPrefix(name, taskOutputVariablePrefix) && strings.HasSuffix(name, taskOutputVariableSuffix)
+}
+
 func (r *TaskRunner) storeTaskOutput(t *task.Task) {
 	var envVarName string
-	varName := fmt.Sprintf("Tasks.%s.Output", strings.Title(t.Name))
+	varName := fmt.Sprintf("%s%s%s", taskOutputVariablePrefix, strings.Title(t.Name), taskOutputVariableSuffix)
 
 	if t.ExportAs == "" {
 		envVarName = fmt.Sprintf("%s_OUTPUT", strings.ToUpper(t.Name))
